@@ -121,7 +121,7 @@ impl Monitor for C04 {
         vec![("runs", tier.pick(21_000, 420_000)), ("exact_fit", tier.pick(6_000, 120_000)), ("big_batches", tier.pick(600, 12_000))]
     }
     fn rule(&self) -> &'static str {
-        "case i -> objective (i mod 7), optimizer kind (i/7 mod 5: SGD, SGDM, Adam, AdamW, RMSprop with random decay / dampening / momentum / centred), N in 1..23, B from {1,2,3,5,7,N-1,N,N+1,64} (so B=1, B not dividing N and B>N occur in every block of nine cases), E in 1..5, validation data in every second case, pools of 1..8 threads; random network of dense/conv/deconv/max-pool layers ending in a dense layer, pairwise different samples. (a) the hooked Forward/Update event log of the learn() call (and, in every third case, of a second learn() call on the same network) must match the trace grammar: per epoch the consecutive groups of B samples, each sample's forward pass exactly once and all before the group's single Update, Update step number = epoch index, then every validation sample once; nothing else. (b) a twin trainer recomputes the run: per-sample gradients from the library's own forward + hooked backward at the twin's weights, summed in sample order, one step of the documented update rule per group; final weights must agree within 1e-4 x (|w| + distance travelled) + 1e-6 and the per-epoch loss must equal the mean over groups of the mean per-sample loss. big_batches: the same two checks with N in {65,66,70,100,127..130,150,200,257} and B in {N, N-1, 64, 65, 70, 100, 128, 129, random 65..N} (groups larger than the library's parallel chunk of 64, mostly not a multiple of it), small networks. exact_fit: the same two checks on dense networks whose first layer is a ReLU layer with positive weights and negative bias followed by bias-free layers, with runs of samples that are fitted exactly (negative inputs, zero targets: loss 0, gradient 0) between ordinary samples, objectives AE / MAE / MSE: a group whose samples are all fitted exactly still receives its optimizer step (momentum, moment estimates and weight decay keep acting). Distinct = distinct (network, optimizer, N, B, E) descriptors."
+        "case i -> objective (i mod 7), optimizer kind (i/7 mod 5: SGD, SGDM, Adam, AdamW, RMSprop with random decay / dampening / momentum / centred), N in 1..23, B from {1,2,3,5,7,N-1,N,N+1,64} (so B=1, B not dividing N and B>N occur in every block of nine cases), E in 1..5, validation data in every second case, the objective gradient clamped in every fifth case, 6..12 epochs in every ninth, pools of 1..8 threads; random network of dense/conv/deconv/max-pool layers ending in a dense layer, pairwise different samples. (a) the hooked Forward/Update event log of the learn() call (and, in every third case, of a second learn() call on the same network, with another batch size and only a prefix of the samples) must match the trace grammar: per epoch the consecutive groups of B samples, each sample's forward pass exactly once and all before the group's single Update, Update step number = epoch index, then every validation sample once; nothing else. (b) a twin trainer recomputes the run: per-sample gradients from the library's own forward + hooked backward at the twin's weights, summed in sample order, one step of the documented update rule per group; final weights must agree within 1e-4 x (|w| + distance travelled) + 1e-6 and the per-epoch loss must equal the mean over groups of the mean per-sample loss. big_batches: the same two checks with N in {65,66,70,100,127..130,150,200,257} and B in {N, N-1, 64, 65, 70, 100, 128, 129, random 65..N} (groups larger than the library's parallel chunk of 64, mostly not a multiple of it), small networks. exact_fit: the same two checks on dense networks whose first layer is a ReLU layer with positive weights and negative bias followed by bias-free layers, with runs of samples that are fitted exactly (negative inputs, zero targets: loss 0, gradient 0) between ordinary samples, objectives AE / MAE / MSE: a group whose samples are all fitted exactly still receives its optimizer step (momentum, moment estimates and weight decay keep acting). Distinct = distinct (network, optimizer, N, B, E) descriptors."
     }
     fn assumptions(&self) -> Vec<&'static str> {
         vec![
@@ -165,7 +165,10 @@ impl Monitor for C04 {
             _ => 64,
             }
         };
-        let epochs = if big { rng.range(1, 2) } else { rng.range(1, 5) };
+        // mostly 1..5 epochs, every ninth case up to 12 (later epochs behave like the first ones)
+        let epochs = if big { rng.range(1, 2) } else if idx % 9 == 7 { rng.range(6, 12) } else { rng.range(1, 5) };
+        // every fifth case clamps the objective gradient (the twin uses the same objective)
+        let clamp: Option<(f32, f32)> = if idx % 5 == 3 { Some(*rng.pick(&[(-0.5f32, 0.5f32), (-0.05, 0.05), (0.0, 1.0), (-1.0, f32::INFINITY)])) } else { None };
         let with_val = idx % 2 == 0;
         let tolerance: i32 = if idx % 10 == 4 { 1 } else if idx % 10 == 8 { 2 } else { 100 };
         let threads = *rng.pick(&[1usize, 2, 4, 8]);
@@ -246,7 +249,7 @@ impl Monitor for C04 {
             x[0] += 3.0;
         }
         let val = DataSet::new(val.sh, val.xs.clone(), val.ts.clone());
-        let desc = format!("{} | {} | {} | N{} B{} E{} val{} threads{}", cfg.describe(), opt.describe(), obj.name(), n, batch, epochs, if with_val { nv } else { 0 }, threads);
+        let desc = format!("{} | {} | {}{} | N{} B{} E{} val{} threads{}", cfg.describe(), opt.describe(), obj.name(), clamp.map(|c| format!(" clamp{:?}", c)).unwrap_or_default(), n, batch, epochs, if with_val { nv } else { 0 }, threads);
         let mut out = Out::new(desc.clone());
         if out_big.get() {
             out.count("runs_with_groups_larger_than_64_samples", 1);
@@ -258,7 +261,7 @@ impl Monitor for C04 {
 
         let build_net = |p: &[P]| -> Result<Network, String> {
             let mut net = build(&cfg, Some(p))?;
-            net.set_objective(lib_obj(obj), None);
+            net.set_objective(lib_obj(obj), clamp);
             Ok(net)
         };
         let mut net = match build_net(&params) {
@@ -286,7 +289,7 @@ impl Monitor for C04 {
                 } else {
                     // a diverging run (non-finite weights) makes arg-max / comparisons panic inside
                     // validate(); the reference trainer tells whether the run diverges
-                    let objf = objective::Function::create(lib_obj(obj), None);
+                    let objf = objective::Function::create(lib_obj(obj), clamp);
                     let mut cur = params.clone();
                     let mut diverged = false;
                     let probe = guard(|| {
@@ -365,7 +368,7 @@ impl Monitor for C04 {
         // the library's own per-sample gradients at their own weights. Where A and B drift apart
         // (sign-like objective gradients, kinks, normalising optimizers fed with rounding noise)
         // the dynamics amplify rounding and the comparison is loosened by that drift.
-        let objf = objective::Function::create(lib_obj(obj), None);
+        let objf = objective::Function::create(lib_obj(obj), clamp);
         let fitted_groups = std::cell::Cell::new(0u64);
         let fitted_after_first = std::cell::Cell::new(0u64);
         let run_twin = |single: bool| -> Result<(Vec<Vec<f64>>, Vec<Vec<f64>>, Vec<f64>), String> {
@@ -501,13 +504,18 @@ impl Monitor for C04 {
         // number = epoch index of THAT call) must hold again
         if idx % 3 == 0 {
             let e2 = rng.range(1, 3);
-            let (res2, events2) = in_cached_pool(threads, || guard(|| net.learn(&xr, &tr, None, batch, e2 as i32, None)));
+            // other batch size and only the first m samples: nothing sized by the first call
+            // may survive into the second
+            let m = rng.range(1, n);
+            let b2 = if rng.bool() { batch } else { rng.range(1, m + 1) };
+            let (xr2, tr2): (Vec<&Tensor>, Vec<&Tensor>) = (xr[..m].to_vec(), tr[..m].to_vec());
+            let (res2, events2) = in_cached_pool(threads, || guard(|| net.learn(&xr2, &tr2, None, b2, e2 as i32, None)));
             match res2 {
                 Ok((tl2, _, _)) => {
                     out.count("second_learn_calls_trace_checked", 1);
                     if tl2.len() != e2 {
                         out.viol("train:epochs", format!("second learn() call: {} training-loss entries for {} epochs [{}]", tl2.len(), e2, desc), detail());
-                    } else if let Err((sig, what)) = check_trace(&events2, &ttags, None, batch, e2) {
+                    } else if let Err((sig, what)) = check_trace(&events2, &ttags[..m], None, b2, e2) {
                         out.viol(&format!("{}:second-call", sig), format!("second learn() call on the same network: {} [{}]", what, desc), detail());
                     }
                 }
